@@ -23,6 +23,17 @@ ADVERSARIAL = [
 ]
 
 
+# titles with unusual but legitimate shapes; they join every language's pool: words carrying symbols at their edges,
+# words made of few distinct letters, digits, one-letter words, words beyond the initial buffer capacity of 20
+SPECIAL_TITLES = [
+    "C++", "#1", "100%", "\"Heroes\"", "C++ C#", "$5 100%", "'n' \"roll\"", "C++ and C#", "#1 best seller", "100% cotton", "\"Heroes\" of might", "$5 off 100%", "it's a 'quoted' word", "+plus+ -minus-",
+    "Mississippi to Tennessee", "assesses 10000 bananas", "aaaa bbbb", "abababab cdcdcd", "1111 2222 3333", "xxxxx", "zzz zz z",
+    "a b c d", "x y", "q", "counterrevolutionaries unite", "donaudampfschifffahrtsgesellschaft", "pneumonoultramicroscopicsilicovolcanoconiosis",
+    "t-shirt xl", "wi-fi router", "e-mail", "micro biology", "night light", "power-bank usb", "3d printer 4k", "usb2 hub", "no.5 chanel",
+    "daddy puppy mummy", "sense tests sensors", "bell bela pikk", "radar level civic",
+]
+
+
 def lang_titles(lang):
     if lang in ("en", "none"):
         return None  # corpus
@@ -907,6 +918,26 @@ def gen_prepare_cases(lang, rnd, titles, toks, ncases):
             q = random_query(lang, rnd, recs, toks)
             for size in rnd.sample([0, 1, 2, 3], 2):
                 c.op(op="prepare", sid=sid, q=cps(q), size=size)
+        # a gram repeated in the query (words starting alike, a word twice) must count once: records sharing only that
+        # gram compete with more than 10 x size records that share two other grams
+        letters = script_letters(lang)
+        ws = [w for t in base for w in t.split() if len(w) >= 3 and w[0].lower() in letters]
+        if ws and k % 2 == 0:
+            v = rnd.choice(ws).lower()
+            xs = [ch for ch in letters if ch != v[0]]
+            x = rnd.choice(xs)
+            others = [ch for ch in letters if ch not in (x, v[0], v[1])]
+            nid = n + 1
+            for _k in range(rnd.randint(11, 14)):
+                c.add(sid, nid, v[:2] + rnd.choice(others) + " " + rnd.choice(others) + rnd.choice(others), rnd.randint(0, 100))
+                nid += 1
+            for _k in range(rnd.randint(3, 6)):
+                c.add(sid, nid, x + rnd.choice(others), rnd.randint(0, 100))
+                nid += 1
+            qrep = " ".join(x + ch for ch in rnd.sample(others, 3)) + " " + v[:2]
+            c.op(op="prepare", sid=sid, q=cps(qrep), size=1)
+            c.op(op="prepare", sid=sid, q=cps(x + x + x + x + " " + v[:2]), size=1)
+            c.op(op="prepare", sid=sid, q=cps(v + " " + v + " " + v[:2]), size=1)
         cases.append(c)
     return cases
 
